@@ -125,6 +125,10 @@ def dir_grid(ctx, kind, nd):
         g = [Fraction(360 * k, nd) for k in range(nd)]
     elif kind == "uniform_off":
         g = [Fraction(360 * k, nd) + Fraction(15, 2) for k in range(nd)]
+    elif kind == "uniform_neg":       # the [-180, 180) convention
+        g = [Fraction(360 * k, nd) - 180 for k in range(nd)]
+    elif kind == "past360":           # arbitrary start, running past 360
+        g = [Fraction(360 * k, nd) + 275 for k in range(nd)]
     elif kind == "nonuniform":
         # uneven bins, every gap < 180 degrees (a grid that covers the circle), first node not at 0
         w = [3, 4, 3, 5, 2, 4, 6, 3, 5, 2, 6, 4][:nd]
